@@ -494,4 +494,30 @@ theorem C14_cross_polytope (n : Nat) (x : List α) :
     · rw [neg_one_mul]; exact neg_le_abs _
     · rw [one_mul]; exact le_abs_self _
 
+theorem vsub_zeros (y : List α) (n : Nat) (hy : y.length = n) : vsub y (zeros n) = y := by
+  induction y generalizing n with
+  | nil => simp [vsub]
+  | cons a y ih =>
+    cases n with
+    | zero => simp at hy
+    | succ n =>
+      simp only [zeros, List.replicate_succ, vsub, sub_zero]
+      congr 1
+      exact ih n (by simpa using hy)
+
+/-- `rotate(R)` for a square `R`: `y` is in the rotated polytope iff `Rᵀ y` is in the original one (for an orthogonal
+    `R`, `Rᵀ = R⁻¹`: the rotated polytope consists exactly of the images `R x` of the points of `P`) -/
+theorem C14_rotate (p : Aff α) (R : Mat α) (y : List α) (hp : ∀ r ∈ p.mat, r.length = p.indim)
+    (hsq : R.length = p.indim) (hy : y.length = p.indim) :
+    Poly.Mem (Poly.rotate p R) y ↔ Poly.Mem p (matVec (transpose p.indim R) y) := by
+  unfold Poly.rotate
+  have hlen : (transpose p.indim R).length = p.indim := by simp [transpose]
+  have hRt : ∀ r ∈ transpose p.indim R, r.length = p.indim := by
+    intro r hr
+    simp only [transpose, List.mem_map] at hr
+    obtain ⟨j, _, rfl⟩ := hr
+    simp [hsq]
+  rw [C14_apply_post p p.indim (transpose p.indim R) (zeros p.indim) y hRt (fun r hr => by rw [hp r hr, hlen]) hy
+      (by simp [zeros]), vsub_zeros y p.indim hy]
+
 end AV
